@@ -392,13 +392,13 @@ func (fv *FuncVC) strEq(x, y Term) string {
 	}
 	fv.declareFun("streq", []string{"Bytes", "Bytes"}, "Bool")
 	e := app("streq", x.S, y.S)
-	ks := idxSort(fv.Mode)
+	_ = idxSort
 	key := "streq:" + x.S + ":" + y.S
 	if !fv.declared[key] {
 		fv.declared[key] = true
 		// streq => same length and content; identical value => streq
 		fv.assert(smtImp(e, smtAnd(app("=", fv.lenOf(x), fv.lenOf(y)),
-			fmt.Sprintf("(forall ((k %s)) (=> (and %s %s) (= %s %s)))", ks, fv.ile(fv.ilit(0), "k"), fv.ilt("k", fv.lenOf(x)), fv.elemAt(x, "k"), fv.elemAt(y, "k")))))
+			fv.forallCopy(x, fv.ilit(0), y, fv.ilit(0), fv.lenOf(x)))))
 		fv.assert(smtImp(app("=", x.S, y.S), e))
 		fv.assert(smtImp(smtAnd(app("=", fv.lenOf(x), fv.ilit(0)), app("=", fv.lenOf(y), fv.ilit(0))), e))
 	}
@@ -411,8 +411,9 @@ func (fv *FuncVC) strConcat(x, y Term, rt types.Type) Term {
 	ks := idxSort(fv.Mode)
 	z := fv.ilit(0)
 	fv.assert(smtAnd(app("=", fv.lenOf(r), fv.iadd(fv.lenOf(x), fv.lenOf(y))), app("=", fv.offOf(r), z), app("=", fv.capOf(r), fv.lenOf(r)), app(">=", fv.baseOf(r), "0"),
-		fmt.Sprintf("(forall ((k %s)) (=> (and %s %s) (= %s %s)))", ks, fv.ile(z, "k"), fv.ilt("k", fv.lenOf(x)), fv.elemAt(r, "k"), fv.elemAt(x, "k")),
-		fmt.Sprintf("(forall ((k %s)) (=> (and %s %s) (= %s %s)))", ks, fv.ile(z, "k"), fv.ilt("k", fv.lenOf(y)), fv.elemAt(r, fv.iadd(fv.lenOf(x), "k")), fv.elemAt(y, "k"))))
+		fv.forallCopy(r, z, x, z, fv.lenOf(x)),
+		fv.forallCopy(r, fv.lenOf(x), y, z, fv.lenOf(y))))
+	_ = ks
 	return r
 }
 
@@ -437,7 +438,7 @@ func (fv *FuncVC) convert(in *ssa.Convert) {
 			ref = fv.newRef("convbase", to).S
 		}
 		fv.assert(smtAnd(app("=", fv.lenOf(r), fv.lenOf(xt)), app("=", fv.arrOf(r), fv.arrOf(xt)), app("=", fv.offOf(r), fv.offOf(xt)), app("=", fv.capOf(r), fv.lenOf(xt)), app("=", fv.baseOf(r), ref),
-			app("=", app("Bytes_g1", r.S), app("Bytes_g1", xt.S)), app("=", app("Bytes_g2", r.S), app("Bytes_g2", xt.S))))
+			app("=", app("Bytes_g1", r.S), app("Bytes_g1", xt.S)), app("=", app("Bytes_g2", r.S), app("Bytes_g2", xt.S)), app("=", app("Bytes_g3", r.S), app("Bytes_g3", xt.S))))
 		fv.vals[in] = Val{T: r}
 	case fs.Kind == KRef && ts.Kind == KRef:
 		// unsafe.Pointer conversions keep the identity
